@@ -183,6 +183,39 @@ def run(facts, cg=None):
         for obi, ot in opens:
             if not any(ib in dom.get(obi, ()) for ib in inits):
                 finding('R-DOMINATES', b, 'open-before-validate', 'output opened at %s on a path that has not validated the archive' % ot['loc'])
+    # ---------------- R-VERIFYOUT(extent): the digest of the output is taken over the bytes of the source and no more.  A regular
+    # file ends there after the resize, a block device does not (F21: every --verify-output clone to a device that is bigger than
+    # the source failed).  Every read that feeds the digest goes through `take(n)` with n = the archive's total source size.
+    n_dig = 0
+    for b in facts.bodies.values():
+        if b.crate != 'bita' or b.generated or not b.id.startswith('bita::clone_cmd::'):
+            continue
+        calls = list(b.calls())
+        if not any('q' in t['callee'] and callee_q(t).endswith(('Digest::update', 'Digest>::update')) for _, t in calls):
+            continue
+        reads = [(bi, t) for bi, t in calls if 'q' in t['callee'] and callee_q(t).startswith('tokio::io::util::async_read_ext::AsyncReadExt::read')]
+        if not reads:
+            continue
+        n_dig += 1
+        for bi, t in reads:
+            recv = simplify(T.resolve_env(simplify(T.of_operand(b, t['args'][0]))))
+            limits = [n_[2][1] for n_ in walk(recv) if n_[0] == 'call' and n_[1].endswith('AsyncReadExt::take') and len(n_[2]) == 2]
+            ok = False
+            for L in limits:
+                if has_call_deep(T, b, L, 'Archive::total_source_size'):
+                    ok = True
+                elif isinstance(L, tuple) and L[0] == 'param':
+                    # a parameter of the digest helper: what every caller passes for it
+                    sites = cg.calls_to(L[1])
+                    idx = L[2]
+                    ok = bool(sites) and all(idx < len(ct['args']) and has_call_deep(T, cb, simplify(T.resolve_env(simplify(T.of_operand(cb, ct['args'][idx])))), 'Archive::total_source_size')
+                                             for (cb, cbi, ct) in sites)
+            instances.append({'rule': 'R-VERIFYOUT(extent)', 'function': b.q, 'read_at': t['loc'], 'limited_to_source_size': ok})
+            if not ok:
+                finding('R-VERIFYOUT', b, 'extent', 'the output digest reads the output to its end at %s instead of the bytes of the source: a block device is usually bigger than what '
+                        'was cloned to it, --verify-output then fails for a correct clone' % t['loc'])
+    if n_dig < 1:
+        findings.append({'rule': 'R-VERIFYOUT', 'key': 'R-VERIFYOUT|-|floor-extent', 'function': '-', 'what': 'the digest of the output was not found (cannot decide)'})
     # ---------------- the block-device test looks at the object that is written (the opened file), not at a name: the same
     # path can be a symlink to a device (/dev/disk/by-label/..) - lstat() says "not a device" and the size check is skipped
     n_bd = 0
